@@ -35,7 +35,7 @@ let () =
   register "confetch" (fun tk -> match tk with
     | _ :: name :: _ -> with_file "confetch" name (fun _ -> obs "confetch differing=0")
     | _ -> failwith "confetch");
-  register "conhttp" (fun _ -> obs "conhttp differing=0 answered=6");
+  register "conhttp" (fun _ -> obs "conhttp differing=0 answered=14");
   (* a handle whose Open had to wait sees the state of the last Sync from every page
      (Lock.run_serializable: it loads the disk only once it owns the lock); the holder's writes
      are not tracked by the model's file state: the observation is a self-comparison *)
